@@ -145,6 +145,19 @@ PROPS = {
                         "specification by WS.sum_perm); concrete replays use rolled and descending direction storage every run",
                         "dtype width: float32 vs float64 not distinguished (reals)"],
     },
+    "C15": {
+        "level": "proof",
+        "engines": [{"kind": "pyse"}],
+        "explanation": "For all frequency grids, parameters and (for spreading) all full uniform direction grids with any offset, proved on the "
+        "real functions: scaled() multiplies every bin by one factor and the measured Hs equals the requested one; Pierson-Moskowitz, JONSWAP and "
+        "Gaussian equal their published formulas, are non-negative, and with hs given equal the shape scaled by scaled()'s factor (hence have "
+        "exactly that Hs by scaled's contract); JONSWAP(gamma=1) = PM term by term; cartwright integrates to one over the circle for every mean "
+        "direction / spread (scalar or per-position arrays).",
+        "trusted_base": ["exp/pow/cos uninterpreted with sign axioms"],
+        "assumptions": ["TMA (requested Hs, deep-water limit = JONSWAP): concrete replays only (a limit statement, not decidable symbolically)",
+                        "measured dm/dspr of a discretised cos^2s spreading equal the requested ones only approximately: not claimed",
+                        "cartwright: sum of the un-normalised spreading is non-zero (precondition)"],
+    },
 }
 
 _PENDING = "not yet brought under contract in the current build round (see DESIGN.md section 8 for the order of work)"
